@@ -75,6 +75,7 @@ func plan(tier string, seed int64) []run.Batch {
 			raw, _ := json.Marshal(ids[i:j])
 			bs = append(bs, run.Batch{Kind: "outcomes", Seed: seed, N: j - i, TimeoutS: 150, Params: map[string]string{"ids": string(raw)}})
 		}
+		bs = append(bs, run.Batch{Kind: "overlap", Seed: seed, N: 16, TimeoutS: 150, Params: map[string]string{"from": "0", "to": "16"}})
 		for i := 0; i < 3; i++ {
 			bs = append(bs, run.Batch{Kind: "shapes", Seed: seed*100 + int64(i), N: 200, TimeoutS: 150, Params: map[string]string{"direct": "200", "full": "10"}})
 		}
@@ -93,6 +94,9 @@ func plan(tier string, seed int64) []run.Batch {
 		}
 		raw, _ := json.Marshal(mine)
 		bs = append(bs, run.Batch{Kind: "outcomes", Seed: seed, N: len(mine), TimeoutS: 400, Params: map[string]string{"ids": string(raw)}})
+	}
+	for i := 0; i < 400; i += 50 {
+		bs = append(bs, run.Batch{Kind: "overlap", Seed: seed, N: 50, TimeoutS: 300, Params: map[string]string{"from": fmt.Sprint(i), "to": fmt.Sprint(i + 50)}})
 	}
 	for i := 0; i < 16; i++ {
 		bs = append(bs, run.Batch{Kind: "shapes", Seed: seed*100 + int64(i), N: 1500, TimeoutS: 300, Params: map[string]string{"direct": "1500", "full": "30"}})
@@ -385,6 +389,8 @@ func (x *ctx) setup() error {
 			})
 		case s.Outcome == "refused":
 			// no listener (or, for a banned server, a listener that must never see a dial)
+		case s.Outcome == "role":
+			// overlap scenarios: the behaviour is installed by runOverlap
 		default:
 			tag := x.genuine(jj)
 			raw := x.replies[tag]
@@ -860,6 +866,9 @@ func runCase(cc *caseCfg, b run.Batch, r *ev.Result) (abort bool) {
 	x.c = c
 	r.Count("cases", 1)
 	r.Count("cases_"+cc.Kind, 1)
+	if b.Kind == "outcomes" {
+		r.Count("enumerated_outcome_cases", 1) // the coverage batch repeats a few of them and is not counted here
+	}
 	st := x.checkState("start", true, true)
 	_, hasPrimary := st.Servers[st.PrimaryServer]
 	ok, abort := x.round("round 1")
@@ -1079,6 +1088,16 @@ func child(b run.Batch, r *ev.Result) {
 				return
 			}
 		}
+	case "overlap":
+		var from, to int
+		fmt.Sscan(b.P("from"), &from)
+		fmt.Sscan(b.P("to"), &to)
+		for i := from; i < to; i++ {
+			if runOverlap(overlapCase(i, b.Seed), b, r) {
+				r.Count("cases_skipped_after_abort", 1)
+				return
+			}
+		}
 	case "shapes":
 		shapesChild(b, r, false)
 	case "cover":
@@ -1088,6 +1107,11 @@ func child(b run.Batch, r *ev.Result) {
 			cc := outcomeCase(g, b.Seed)
 			cc.Liveness = g == 4 || g == 780+3*(1+5+25+125+625)
 			if runCase(cc, b, r) {
+				return
+			}
+		}
+		for i := 0; i < 3; i++ {
+			if runOverlap(overlapCase(i, b.Seed), b, r) {
 				return
 			}
 		}
